@@ -15,10 +15,12 @@ RULES = ['R16.1.module-state', 'R16.2.mutable-default', 'R16.2.function-state', 
 
 
 def reachable(cg, entry, extra=()):
-    """Functions that may run during a call of `entry`: resolved calls of the call graph, plus every module-level function or
-    class that a reachable function merely *mentions* (a pass stored in a list / tuple / dict of passes, handed to a helper, wrapped
-    in a lambda or functools.partial is address-taken, and an over-approximation of the reach is the sound side for effect rules)."""
+    """Functions that may run during a call of `entry`: resolved calls of the call graph (methods are resolved by name over all
+    classes), plus every module-level function that a reachable function merely *mentions* (a pass stored in a list / tuple / dict
+    of passes, handed to a helper, wrapped in a lambda or functools.partial is address-taken, and an over-approximation of the
+    reach is the sound side for effect rules)."""
     seen = set()
+    mentioned = set()
     todo = [entry] + list(extra)
     facts = cg.facts
     while todo:
@@ -33,11 +35,12 @@ def reachable(cg, entry, extra=()):
             elif isinstance(n, ast.Name) and isinstance(n.ctx, ast.Load) and n.id not in local:
                 if n.id in facts.funcs:
                     todo.append(n.id)
-                elif n.id in facts.classes and not isinstance(getattr(n, '_parent', None), ast.Call):
-                    # a class used as a value (not just instantiated / tested): any of its methods may be called
-                    par = getattr(n, '_parent', None)
-                    if not (isinstance(par, ast.Call) and par.func is not n and dotted(par.func) in ('isinstance', 'issubclass')):
-                        todo.extend(m for m in cg.funcs if m.startswith(n.id + '.'))
+                elif n.id in facts.assign_nodes and n.id not in mentioned:
+                    # a module-level table (list / tuple / dict of parsers, passes, ...): the functions it holds may be called
+                    mentioned.add(n.id)
+                    for m in ast.walk(facts.assign_nodes[n.id].value):
+                        if isinstance(m, ast.Name) and m.id in facts.funcs:
+                            todo.append(m.id)
         # nested closures are created inside and called through tables
         for cand, par in cg.parent.items():
             if par == q:
